@@ -953,6 +953,12 @@ where
         to = idx;
     }
 
+    // `to` was computed with the rule at its previous position. When the rule moves towards the
+    // end of the set, the rules up to the target shift by one place to fill the gap it leaves.
+    if replaced.is_some() && to > from {
+        to -= 1;
+    }
+
     // Only move the item if it's new or if it was positioned.
     if replaced.is_none() || after.is_some() || before.is_some() {
         set.move_index(from, to);
